@@ -18,6 +18,8 @@ Inductive shape_guard := SGNone | SGSameShape | SGInner.
 Inductive shape_rule := ShLeft | ShOuter.
 Record dclass := { dc_name : string; dc_guard : shape_guard; dc_shape : shape_rule; dc_dense : dtm; dc_matvec : dtm }.
 
+(* how a leaf class builds its transpose: from the transposed dense/sparse matrix, itself (diagonal), swapped factors *)
+Inductive trkind := TrDense | TrSelf | TrSwap.
 Inductive dimsel := DimSpace | DimDual.
 Inductive addforeign := AddReturnsErrorClass | AddNotImplemented.
 
